@@ -587,7 +587,7 @@ def normalize_path(path: bytes) -> tuple[bytes, str]:
         if segment == b".":
             pass
         elif segment == b"..":
-            if dotless:
+            if dotless and dotless != [b""]:  # never remove the leading empty segment: an absolute path stays absolute
                 dotless.pop()
         else:
             dotless.append(segment)
